@@ -447,6 +447,16 @@ pub fn session_item(item: &Value) -> Value {
                     w.flush().await.unwrap();
                 });
             }
+            "close" => {
+                // textDocument/didClose on its own: no hooks fire, the buffer stays (later requests are answered from it)
+                let file = jstr(st, "file");
+                let msg = json!({"jsonrpc": "2.0", "method": "textDocument/didClose", "params": {"textDocument": {"uri": uri_of(&dir, file)}}});
+                rt.block_on(async {
+                    let mut w = cli_w.lock().await;
+                    w.write_all(&frame(&msg)).await.unwrap();
+                    w.flush().await.unwrap();
+                });
+            }
             "request" => {
                 let rid = next_req;
                 next_req += 1;
